@@ -29,6 +29,10 @@ pub enum Edit {
     NoteAdd { page: u32, x: f64, y: f64, contents: String },
     NoteUpdate { nth: usize, x: f64, y: f64, contents: String },
     NoteRemove { nth: usize },
+    /// PdfWriter::write_incremental_with_page_replacement: page 0 is replaced by a freshly authored
+    /// page carrying `text` (the base travels through a real temp file as an inert input; the
+    /// output goes through a shortening SimSink)
+    PageReplace { text: String, short_writes: u64 },
 }
 
 #[derive(Clone, Debug, Serialize, Deserialize)]
@@ -82,6 +86,7 @@ fn gen_case(cs: u64) -> Case {
             4 => Edit::FillMany((0..1 + r.usize_below(3)).map(|_| (r.usize_below(nf), gen_value(&mut r))).collect()),
             5..=6 => Edit::NoteAdd { page: 0, x: 5.0 + r.below(60) as f64, y: 5.0 + r.below(60) as f64, contents: { let v = gen_value(&mut r); if v.is_empty() { "n".into() } else { v } } },
             7..=8 => Edit::NoteUpdate { nth: r.usize_below(4), x: 5.0 + r.below(60) as f64, y: 5.0 + r.below(60) as f64, contents: { let v = gen_value(&mut r); if v.is_empty() { "u".into() } else { v } } },
+            9 if r.chance(1, 2) => Edit::PageReplace { text: format!("replaced-{}", r.below(100000)), short_writes: if r.chance(1, 2) { r.next_u64() | 1 } else { 0 } },
             _ => Edit::NoteRemove { nth: r.usize_below(4) },
         };
         edits.push(e);
@@ -154,6 +159,7 @@ fn exec_inner(c: &Case, out: &mut Outcome) {
     out.digest = mix(out.digest, fnv1a(&cur));
     out.bump(&format!("cfg.{}", c.cfg.label()), 1);
     let mut applied = 0;
+    let mut replaced_text: Option<String> = None;
     for (ei, e) in c.edits.iter().enumerate() {
         let prev = cur.clone();
         // ---- apply through the library
@@ -197,6 +203,38 @@ fn exec_inner(c: &Case, out: &mut Outcome) {
                         u.pdf_bytes
                     })
                 }
+            }
+            Edit::PageReplace { text, short_writes } => {
+                // the REAL pid (getpid() is simulated and equal in every worker): one directory per worker
+                let real_pid = unsafe { libc::syscall(libc::SYS_getpid) };
+                let dir = std::env::temp_dir().join(format!("simcheck-c17-{}", real_pid));
+                let _ = std::fs::create_dir_all(&dir);
+                let path = dir.join("base.pdf");
+                let r = (|| -> Result<Vec<u8>, String> {
+                    std::fs::write(&path, &prev).map_err(|e| e.to_string())?;
+                    let mut doc = oxidize_pdf::Document::new();
+                    let mut page = oxidize_pdf::Page::new(300.0, 300.0);
+                    page.text().set_font(oxidize_pdf::text::Font::Helvetica, 12.0).at(20.0, 200.0).write(text).map_err(|e| e.to_string())?;
+                    doc.add_page(page);
+                    let mut plan = SinkPlan::default();
+                    if *short_writes != 0 {
+                        plan.short_seed = *short_writes;
+                        plan.short_max_chunk = 97;
+                    }
+                    let (sink, image, _st) = SimSink::new(plan);
+                    let mut w = oxidize_pdf::writer::PdfWriter::with_config(sink, oxidize_pdf::writer::WriterConfig::incremental());
+                    w.write_incremental_with_page_replacement(&path, &mut doc).map_err(|e| e.to_string())?;
+                    drop(w);
+                    let b = image.lock().unwrap().clone();
+                    Ok(b)
+                })();
+                let _ = std::fs::remove_file(&path);
+                let _ = std::fs::remove_dir(&dir);
+                r.map(|b| {
+                    notes.retain(|n| n.page != 0); // the replaced page carries only what was authored
+                    replaced_text = Some(text.clone());
+                    b
+                })
             }
             Edit::NoteRemove { nth } => {
                 if notes.is_empty() {
@@ -289,6 +327,37 @@ fn exec_inner(c: &Case, out: &mut Outcome) {
             }
         }
         out.bump("untouched_objects_compared", (pd.xref.len() - pd.xref.keys().filter(|n| changed.contains(n)).count()) as u64);
+        // a replaced page shows the newly authored text, the page count is unchanged
+        if let Edit::PageReplace { text, .. } = e {
+            let (pp, np) = (pd.pages(), nd.pages());
+            if pp.len() != np.len() {
+                out.violate("page-replacement:page-count-changed", format!("{}: {} pages before, {} after", ctx, pp.len(), np.len()));
+                return;
+            }
+            let hay = np.first().map(|p| String::from_utf8_lossy(&p.content).to_string()).unwrap_or_default();
+            if !hay.contains(text.as_str()) {
+                out.violate("page-replacement:new-content-not-visible", format!("{}: page 0 read back by the independent reader does not show {:?}", ctx, text));
+                return;
+            }
+            out.bump("probe.page_replacement_checked", 1);
+            // document-level entries of the catalog must survive a page replacement
+            let old_root = pd.resolve(pd.trailer.get("Root").unwrap_or(&Obj::Null));
+            let new_root = nd.resolve(nd.trailer.get("Root").unwrap_or(&Obj::Null));
+            let lost: Vec<&str> = ["AcroForm", "Outlines", "Metadata", "Names"].into_iter().filter(|k| old_root.get(k).is_some() && new_root.get(k).is_none()).collect();
+            if !lost.is_empty() {
+                out.more.push((
+                    Violation {
+                        class: "page-replacement:catalog-entries-dropped".into(),
+                        detail: format!("{}: the new catalog no longer has {:?}; earlier field values are unreachable", ctx, lost),
+                    },
+                    serde_json::to_value(c).unwrap(),
+                ));
+                if lost.contains(&"AcroForm") {
+                    fields.clear(); // nothing left to show: keep checking the rest of the history
+                }
+            }
+        }
+        let _ = &replaced_text;
         // newest values through the independent reader
         let root = nd.resolve(nd.trailer.get("Root").unwrap_or(&Obj::Null));
         let af = nd.resolve(root.get("AcroForm").unwrap_or(&Obj::Null));
